@@ -113,6 +113,9 @@ func (g *G) genBody(f *am.Fun) {
 			}
 		case nc == 2:
 			s.kind = g.pick("term2", []string{"condbr", "condbr", "switch", "invoke", "indirectbr", "callbr"})
+			if useEH && s.kind != "invoke" && g.chance("moreinvoke", 1, 3) {
+				s.kind = "invoke"
+			}
 			s.succs = []int{s.children[0], s.children[1]}
 			if s.kind == "invoke" && !(useEH && len(st.sk[s.children[1]].children) >= 0) {
 				s.kind = "condbr"
@@ -372,10 +375,10 @@ func (g *G) fillBlock(st *fstate, i int) {
 		}
 		c.add(lp)
 	}
-	// invoke result of a single-predecessor normal destination becomes available here
+	// the result of an invoke / callbr becomes available in its single-predecessor normal destination
 	if len(uniq(s.preds)) == 1 {
 		p := st.sk[s.preds[0]]
-		if p.kind == "invoke" && len(p.succs) > 0 && p.succs[0] == i && p.b.Term != nil && p.b.Term.HasValue() {
+		if (p.kind == "invoke" || p.kind == "callbr") && len(p.succs) > 0 && p.succs[0] == i && !contains(p.succs[1:], i) && p.b.Term != nil && p.b.Term.HasValue() {
 			st.vals[i] = append(st.vals[i], &am.Value{K: am.VInst, I: p.b.Term})
 		}
 	}
@@ -1109,9 +1112,23 @@ func (g *G) genTerm(c *cur, s *skel) {
 			}
 			cons += "X"
 		}
-		ft = am.Fn(am.TVoid, false, ps...)
+		rt := am.TVoid
+		if g.chance("callbrresult", 1, 3) {
+			// an asm output: the callbr defines a value (usable on the fallthrough path only)
+			rt = []*am.Type{am.I32, am.I64}[g.intn("callbrrt", 2)]
+			if cons != "" {
+				cons = "=r," + cons
+			} else {
+				cons = "=r"
+			}
+			g.feat("term/callbr-with-result")
+		}
+		ft = am.Fn(rt, false, ps...)
 		a := &am.InlineAsm{T: ft, Asm: "", Constraints: cons, SideEffect: true}
-		t = &am.Inst{Op: "callbr", Callee: &am.Value{K: am.VInlineAsm, Asm: a}, FnT: ft, T: am.TVoid, Args: args}
+		t = &am.Inst{Op: "callbr", Callee: &am.Value{K: am.VInlineAsm, Asm: a}, FnT: ft, T: rt, Args: args}
+		if t.HasValue() {
+			t.Name = g.localName("cbr")
+		}
 		for k := range s.succs {
 			t.Targets = append(t.Targets, tgt(k))
 		}
